@@ -13,6 +13,7 @@
    stable (oracle; the correspondence tests it), `argmin` returns the first
    minimum.  Executable definitions only. *)
 From Coq Require Import List Bool ZArith QArith Arith.
+From NV.Generated Require Import ClusteringFrags.
 From NV.C14 Require Import Model.
 Import ListNotations.
 
@@ -52,7 +53,7 @@ Record wstate := mk_wstate {
 Fixpoint inertia_vec (d : nat) (n : Q) (s q : vec) : Q :=
   match d with
   | O => 0
-  | S d' => inertia_vec d' n s q + (nth d' q 0 - nth d' s 0 * nth d' s 0 / n)
+  | S d' => inertia_vec d' n s q + src_inertia_term n (nth d' s 0) (nth d' q 0)   (* translated from _inertia *)
   end.
 Fixpoint vadd (d : nat) (a b : vec) : vec :=
   match d with O => [] | S d' => vadd d' a b ++ [nth d' a 0 + nth d' b 0] end.
@@ -289,19 +290,27 @@ Definition canon (l : list nat) : list nat := rename_from l [].
 
 (* partition(threshold): None = "cannot create graphs with no vertex" *)
 Definition partition (parents : list nat) (height : list Q) (th : Q) : option (list nat) :=
-  let valid v := Qltb (nth v height 0) th in
+  let valid v := if src_partition_strict then Qltb (nth v height 0) th else Qle_bool (nth v height 0) th in
   if existsb valid (seq 0 (length parents)) then Some (canon (cut_labels parents valid)) else None.
 
 Fixpoint insq (x : Q) (l : list Q) : list Q :=
   match l with [] => [x] | a :: r => if Qle_bool x a then x :: a :: r else a :: insq x r end.
 Definition sortq (l : list Q) : list Q := fold_right insq [] l.
 
+(* Python indexing of an array of length V: negative indices count from the end *)
+Definition py_index (V : nat) (idx : Z) : option nat :=
+  if (idx <? 0)%Z then (if (- idx <=? Z.of_nat V)%Z then Some (Z.to_nat (Z.of_nat V + idx)) else None)
+  else if (idx <? Z.of_nat V)%Z then Some (Z.to_nat idx) else None.
+
 Definition split (parents : list nat) (height : list Q) (k : nat) : option (list nat) :=
   let V := length parents in
   let k := Nat.min k V in
   let c := count_roots parents in
   if Nat.leb k c then Some (canon (cut_labels parents (fun _ => true)))
-  else partition parents height (nth (V + c - k) (sortq height) 0).
+  else match py_index V (src_split_index (Z.of_nat c) (Z.of_nat k)) with    (* th = sh[nbcc - k], translated *)
+       | Some i => partition parents height (nth i (sortq height) 0)
+       | None => None                                                         (* IndexError *)
+       end.
 
 (* list_of_subtrees: leaves below each internal node *)
 Definition list_of_subtrees (n : nat) (parents : list nat) : list (list nat) :=
